@@ -118,7 +118,8 @@ class C02(vlib.Driver):
                    "tensordict.to_module installs detached tensors) are parameters of the model validated by K only",
                    "the numerical effect of a gradient step / parameter noise is opaque (fresh content id); that a learn step "
                    "MOVES every referenced parameter is checked on the implementation (oracle + K flag), the model only states "
-                   "the write footprint",
+                   "the write footprint; a trained tensor whose gradient in the last backward pass is exactly zero or absent "
+                   "(dead units of the tiny test networks) is excused from 'moved'",
                    "which layer / how many nodes a random architecture mutation picks is an input (shapes and descriptor ids "
                    "of the mutated networks are taken from the observation); the per-module meaning of a method is C03's model",
                    "accelerator / torch.compile / DeepSpeed paths of Mutations are not exercised"]
@@ -197,6 +198,11 @@ class C02(vlib.Driver):
                 for share in ([False, True] if algo in evo.SHARE_CAPABLE else [False]):
                     cases.append(boundary(algo, share, 2, netcfg="full"))
                 for fam in evo.FAMILIES:
+                    if algo in evo.BANDIT and fam == "discrete":
+                        # bandit contexts are feature vectors: learn() does not one-hot a Discrete context, the engine's
+                        # batch of B scalars is only accepted by coincidence when B equals the space size (precondition
+                        # of the code, not a bound of the proofs)
+                        continue
                     for share in ([False, True] if algo in evo.SHARE_CAPABLE else [False]):
                         for rep in range(2):
                             cases.append(seeded(algo, fam, share, rng.choice(["partial", "full", "none"]), 5,
@@ -210,6 +216,7 @@ class C02(vlib.Driver):
         run_impl then returns the stored observation.  A case that fails in a worker is re-run in this process so that
         the error is reported by the normal path."""
         self._cache = {}
+        cases = list(self.corpus()) + list(cases)        # the stored cases are run by the same workers
         nw = int(os.environ.get("VERIF_C02_WORKERS", "4"))
         if nw <= 1 or len(cases) < 3:
             return
@@ -329,13 +336,19 @@ class C02(vlib.Driver):
                 states.append(states[-1][:i] + [mine] + states[-1][i + 1:])
                 oi = _opt_identity(evo.unwrap(pop[i]))
                 trained = {n for d in oi.values() for n in d["nets"]}
-                rec["unchanged_trained"] = [s[0] for s in mine["slots"] if s[1] in ("enc", "head")
-                                            and s[0].split(".")[0].split("[")[0] in trained and before.get(s[0]) == s[3]]
-                # positions (canonical slot order of the whole population) whose value changed
+                # a tensor whose gradient is exactly zero (dead units of a tiny network) or absent legitimately stays put:
+                # "moved" is demanded of every trained tensor that received a non-zero gradient in the last backward pass
+                grads = _grad_sums(evo.unwrap(pop[i]), trained)
+                still = [s[0] for s in mine["slots"] if s[1] in ("enc", "head")
+                         and s[0].split(".")[0].split("[")[0] in trained and before.get(s[0]) == s[3]]
+                rec["unchanged_trained"] = [n for n in still if grads.get(n)]
+                rec["zero_grad"] = [n for n in still if not grads.get(n)]
+                # positions (canonical slot order of the whole population) whose value changed (or is excused as above)
                 pos, ch = 0, []
+                excused = set(rec["zero_grad"])
                 for j, ag in enumerate(states[-1]):
                     for s in ag["slots"]:
-                        if j == i and before.get(s[0]) != s[3]:
+                        if j == i and (before.get(s[0]) != s[3] or s[0] in excused):
                             ch.append(pos)
                         pos += 1
                 rec["changed_pos"] = ch
@@ -584,6 +597,8 @@ class C02(vlib.Driver):
             labs.append("op=" + o[0])
             if o[0] == "train":
                 trained = True
+                if r.get("zero_grad"):
+                    labs.append("train=some-zero-gradient-tensors")
             if o[0] == "mutate":
                 gen += 1
                 labs.append(f"generation={min(gen, 4)}")
@@ -607,6 +622,19 @@ class C02(vlib.Driver):
                 c["ops"] = case["ops"][:cut]
                 yield c
                 break
+
+
+def _grad_sums(a, trained):
+    """slot name -> sum |grad| of every parameter of the optimised networks (None when there is no gradient)"""
+    out = {}
+    for n in trained:
+        obj = getattr(a, n)
+        for mi, m in enumerate(evo._modules_of(obj)):
+            m = getattr(m, "_orig_mod", m)
+            tag = f"{n}[{mi}]" if isinstance(obj, (list, tuple)) else n
+            for k, p in m.named_parameters():
+                out[f"{tag}.{k}"] = None if p.grad is None else float(p.grad.detach().abs().sum())
+    return out
 
 
 def _pack(xs, per=10):
